@@ -111,6 +111,10 @@ def well_formed(text, params):
         v.append(('template-residue', 'doubled braces reached the driver (unexpanded f-string template)'))
     for m in re.finditer(r'\{\s*([A-Za-z_]\w*)\s*\}', masked):
         v.append(('template-residue', f'unexpanded placeholder {m.group(0)!r}'))
+    # a Python value rendered into the text by an f-string (Cypher spells these null / true / false)
+    for m in re.finditer(r'(?<![\w$.:])(None|True|False)(?=[A-Z\W]|$)', masked):
+        v.append(('python-repr-in-statement', f'{m.group(1)!r} (the text form of a Python value) at offset {m.start()}: ...{masked[max(0, m.start() - 30):m.start() + 20]}'))
+        break
     # parameters
     named = set(re.findall(r'\$([A-Za-z_]\w*)', masked))
     missing = sorted(named - set(params))
